@@ -484,6 +484,9 @@ NAME_POOLS = {
     "repeated": ["a", "b", "c"],
     "affix": ["a", "xa", "ab", "b", "bc", "abc", "xb", "c"],
     "special": ["a.b", "(", "+", "a b", "a'", "0", "a1", "a", "10", "-", "ü", "name", "A"],
+    # names that start or end with the default separator or with a character of another separator of the
+    # pool (the separator in use is then chosen free of all names)
+    "sepish": ["usr/", "/etc", "a|", "|b", "x-", "-y", "c.", ".d", "e\\", "\\f", "g:", ">h", "/", "r", "s", "t", "u"],
 }
 SEPS = ["/", "\\", "-", ".", "|"]
 MSEPS = ["->", "::", "=>", "//", "-|-"]          # separators of more than one character
@@ -583,7 +586,7 @@ def pick_sep(rng, names, multi=False):
     many = [s for s in MSEPS if char_free(s, names)]
     if many and rng.random() < 0.4:
         return rng.choice(many)
-    cands = [s for s in SEPS if char_free(s, names)]
+    cands = [s for s in SEPS if char_free(s, names)] or [s for s in ALLSEPS + ["~", "#"] if char_free(s, names)]
     return rng.choice(cands) if cands else "/"
 
 
@@ -775,10 +778,10 @@ def gen_history(rng):
     """one or two roots; add_path_to_tree calls interleaved with del parent[name] / node.parent = other /
     node.sort(); in particular: add a path, detach or re-parent one of its prefix nodes, add a path sharing
     that prefix again; the same paths added to two roots alternately"""
-    pool_name = rng.choice(["distinct", "distinct", "affix", "repeated"])
+    pool_name = rng.choice(["distinct", "distinct", "affix", "repeated", "sepish"])
     pool = NAME_POOLS[pool_name]
     nodes = gen_shape(rng, rng.choice(["deep", "mixed", "wide"]), pool, rng.choice([6, 8, 10]))
-    names = sorted({n for p in nodes for n in p})
+    names = sorted(set(pool))          # tails of later adds are drawn from the whole pool
     sep = pick_sep(rng, names)
     dup = True
     root = nodes[0]
@@ -1095,7 +1098,8 @@ def sample(prop, case, obs):
 
 def rule(prop):
     return ("row lists derived from random name tries (<= 12 nodes; shapes wide/deep/mixed/path/star; name pools "
-            "distinct/repeated/affix/special; separators: 5 single-character and 5 multi-character ('->', '::', '=>', '//', '-|-'; ~40% of cases, also for the existing tree's own separator), chosen with no character in common with any name, optional (double) whole leading/trailing separator; a K3-territory stratum (multi-character separator and a name starting/ending with one of its characters); "
+            "distinct/repeated/affix/special/sepish (names starting or ending with '/' or a character of another separator "
+            "of the pool: 'usr/', '/etc', 'a|', '-y', ..., the separator in use free of all names); separators: 5 single-character and 5 multi-character ('->', '::', '=>', '//', '-|-'; ~40% of cases, also for the existing tree's own separator), chosen with no character in common with any name, optional (double) whole leading/trailing separator; a K3-territory stratum (multi-character separator and a name starting/ending with one of its characters); "
             "attribute dicts with nulls, falsy values 0/''/False and keys that are not identifiers ('age group', 'unit-cost', "
             "'_flag', 'class', '2024'); malformed: wrong root, empty component, no rows; targeted strata: suffix trap "
             "(a/xa/b + a/b, duplicates disallowed), nodup-deep (duplicates disallowed, depth >= 4, input separator != tree "
